@@ -86,3 +86,7 @@ Definition bc_def_tab (g : qadj) (normalized directed : bool) : list Q :=
 Fixpoint nodupb (l : list nat) : bool :=
   match l with [] => true | x :: t => negb (nmem x t) && nodupb t end.
 Definition rows_nodup (g : qadj) : bool := forallb (fun r => nodupb (map fst r)) g.
+
+(* checker: every cost of the adjacency is strictly positive (the domain of the weighted-mode
+   theorem); sound by Proofs/BrandesWeighted.rows_pos_sound *)
+Definition rows_pos (g : qadj) : bool := forallb (forallb (fun e => qlt 0 (snd e))) g.
